@@ -188,6 +188,10 @@ def filter_case(case):
     try:
         repo, marks = build_repo(case, root)
         aux = write_aux(case, root, marks)
+        if case['id'] % 4 == 1:
+            # a repository copied from a case-insensitive platform keeps core.ignorecase=true in its own config
+            git(repo, 'config', 'core.ignorecase', 'true')
+            count('core.ignorecase-true')
         before_refs = refs(repo)
         before_head = head_of(repo)
         s_before = export(repo)
@@ -516,6 +520,23 @@ def backup_case(case):
             bargs += ['--backup-path', os.path.join(blocker, 'sub', 'x.bundle')]; expect = ('unwritable', None); count('backup-path-unwritable')
         else:
             expect = ('default', os.path.join(repo, '.git', 'filter-repo')); count('backup-default-location')
+        if k % 3 == 1 and k % 4 == 0 and refs(repo):
+            # a clone that differs from its origin (local-only branch and tag, upstream moved on), rewritten in sensitive mode:
+            # the fetch of sensitive mode overwrites and prunes local refs, so the bundle has to be written before it
+            tip = [v[0] for kk, v in sorted(refs(repo).items()) if v[1] == 'commit'][0]
+            git(repo, 'update-ref', 'refs/heads/local-only', tip); git(repo, 'update-ref', 'refs/tags/local-tag', tip)
+            t = git(origin, 'rev-parse', tip + '^{tree}').decode().strip()
+            git(origin, 'update-ref', 'refs/heads/upstream-moved', _plumb_commit(origin, t, [tip], b'upstream moved on\n'))
+            bargs = ['--backup', '--sensitive']
+            expect = ('default', os.path.join(repo, '.git', 'filter-repo'))
+            count('sensitive-fetch-after-backup')
+        if form == 2 and k % 8 == 2 and refs(repo):
+            # the file form reused: an earlier bundle already sits at the path and this time `git bundle create` fails
+            os.makedirs(os.path.dirname(expect[1]), exist_ok=True)
+            git(repo, 'bundle', 'create', expect[1], '--all')
+            open(expect[1] + '.lock', 'w').write('stale lock')
+            expect = ('unwritable', None)
+            count('stale-bundle-and-failing-create')
         before_refs = refs(repo)
         before_head = git(repo, 'rev-parse', 'HEAD', check=False).decode().strip()
         before_snapshot = full_snapshot(repo) if expect[0] == 'unwritable' else None
@@ -818,6 +839,17 @@ def analyze_case(case):
             count('empty-repository')
             return res
         fx = augment_for_analysis(repo, rnd, count)
+        mode_flags = []
+        if case['id'] % 6 == 5 and case['id'] % 5 != 4:
+            # a clone whose upstream moved on and that has local-only work; options that matter only to filtering must stay inert
+            clone = os.path.join(root, 'clone')
+            subprocess.run(['git', 'clone', '-q', '--no-local', repo, clone], check=True, env=GIT_ENV, stdout=subprocess.DEVNULL, stderr=subprocess.DEVNULL)
+            tip = [v[0] for kk, v in sorted(refs(repo).items()) if v[1] == 'commit'][0]
+            git(repo, 'update-ref', 'refs/heads/upstream-only', _plumb_commit(repo, git(repo, 'rev-parse', tip + '^{tree}').decode().strip(), [], b'upstream moved\n'))
+            git(clone, 'update-ref', 'refs/heads/local-only', tip)
+            repo = clone
+            mode_flags = [['--sensitive'], ['--sensitive', '--backup'], ['--backup', '--cleanup', 'aggressive'], ['--write-report', '--sensitive']][case['id'] % 4]
+            count('clone-with-origin-and-filter-mode-flags')
         top = rnd.choice([0, 1, 2, 3, 5, 10, 50])
         extra = []
         thr = 10 * 1024 * 1024          # the default of warn_blob_bytes
@@ -831,7 +863,7 @@ def analyze_case(case):
         top_arg, top = top, max(1, top)          # opts.rs clamps --analyze-top to at least 1
         truth = analysis_truth(repo)
         before = full_snapshot(repo) if not case['id'] % 5 == 4 else dict(refs=refs(repo), objects=sorted(git(repo, 'cat-file', '--batch-all-objects', '--batch-check').decode().split('\n')), gitdir=tree_digest(repo))
-        rc, out, err, _ = run_tool(repo, ['--analyze', '--analyze-json', '--analyze-top', str(top_arg)] + extra)
+        rc, out, err, _ = run_tool(repo, ['--analyze', '--analyze-json', '--analyze-top', str(top_arg)] + extra + mode_flags)
         after = full_snapshot(repo) if not case['id'] % 5 == 4 else dict(refs=refs(repo), objects=sorted(git(repo, 'cat-file', '--batch-all-objects', '--batch-check').decode().split('\n')), gitdir=tree_digest(repo))
         for k in before:
             if before[k] != after[k]:
@@ -1073,6 +1105,15 @@ def detect_case(case):
             b3 = make_blob(fams[4:], 'side-branch-' + mode, mode)
             git(repo, 'update-ref', 'refs/heads/side', _plumb_commit(repo, _mktree(repo, [('100644', 'blob', b3, b'blob.dat')]), [], b'side\n'))
             count('blob-kind-' + mode)
+        # (c2) a blob that a tag points at directly (lightweight or annotated): reachable, but it has no path
+        if case['id'] % 3 == 0:
+            fam = rnd.choice(FAMILIES)
+            bt = make_blob([fam], 'blob-pointed-at-by-a-tag')
+            if case['id'] % 2 == 0:
+                git(repo, 'tag', 'blob-tag', bt)
+            else:
+                git(repo, 'tag', '-a', '-m', 'tagged blob', 'blob-tag-annotated', bt)
+            count('token-in-tagged-blob')
         # (d) an unreachable blob with a token of its own
         utext, uval = plant_token(rnd, 'github_token')
         _blob(repo, f'unreachable {utext}\n'.encode())
@@ -1135,10 +1176,20 @@ def detect_case(case):
             fail(f'--replace-text with the generated file exited with {rc}: {err.decode("utf-8", "replace")[-200:]}')
             return res
         blobs2 = reachable_blobs(repo)
+        direct = set()        # blobs a ref points at directly or through an annotated tag: git fast-export skips such refs
+        for name, val in refs(repo).items():
+            if val[1] == 'blob':
+                direct.add(val[0])
+            elif val[1] == 'tag' and len(val) > 2 and val[2]:
+                t = git(repo, 'cat-file', '-t', val[2], check=False).decode().strip()
+                if t == 'blob':
+                    direct.add(val[2])
         for v in vals:
             vb = v.encode()
             hit = [o for o, data in blobs2.items() if vb in data]
-            if hit:
+            if hit and all(o in direct for o in hit):
+                fail(f'[tagged-blob] after --replace-text with the generated file the value {v!r} still occurs in blob {hit[0][:12]}, which a tag points at directly (git fast-export skips such tags, so the blob is never rewritten)')
+            elif hit:
                 fail(f'after --replace-text with the generated file the value {v!r} still occurs in reachable blob {hit[0][:12]}')
         count('loop-closed-runs')
         return res
@@ -1287,6 +1338,11 @@ def twice_case(case):
         b = os.path.join(root, 'copy B with blanks')
         shutil.copytree(a, b, symlinks=True)
         cli = ['--force'] + [x.replace('@AUX@', aux) for x in case['cli']]
+        if '--date-set' not in cli and '--date-shift' not in cli and k % 4 != 3:
+            # date options given as text: zone-less strings must not be read in the local time zone
+            cli += [['--date-set', '2021-03-04 05:06:07'], ['--date-set', '2021-03-04'], ['--date-set', '2021-03-04T05:06:07+09:00'],
+                    ['--date-shift', '-90 minutes'], ['--date-set', '2021/03/04 23:59:59']][k % 5]
+            count('date-option-as-text')
         rc1, _, err1 = run_tool_prefixed(a, cli, GIT_ENV, [])
         prefix = ['nice', '-n', str(5 + k % 10)]
         if shutil.which('taskset'):
@@ -1376,6 +1432,13 @@ def sweep_cases(tier):
         add('detect', 400 if bs < 60000 else 40, bs, [None, 'chunk'][len(cases) % 2])
     for n in ([100, 1000, 2500, 6000] if tier == 'quick' else [100, 500, 1000, 1500, 2500, 4000, 6000, 15000]):
         add('analyze', n, 9, [None, 'slow', 'buffer', 'chunk'][len(cases) % 4])
+    # the 500-value cap of the scan reached early, much scannable content after it
+    for nsec, nfiles in ([(600, 40), (499, 40), (2000, 10)] if tier == 'quick' else [(400, 40), (499, 40), (500, 40), (501, 40), (600, 40), (600, 400), (2000, 10), (5000, 100)]):
+        add('detect-many', nsec, nfiles * 20000, [None, 'chunk'][len(cases) % 2])
+    # children that write a lot to stderr: hundreds of refs that fast-export warns about, with and without --quiet
+    for ntags in ([300, 1200] if tier == 'quick' else [100, 300, 700, 1200, 5000]):
+        add('filter-noisy', ntags, 9, None, ['--quiet', '--path', 'd1/'])
+        add('filter-noisy', ntags, 9, [None, 'chunk'][len(cases) % 2], ['--path', 'd1/'])
     for n in ([200, 2500] if tier == 'quick' else [200, 1200, 2500, 8000]):
         add('filter', n, 9, [None, 'chunk'][len(cases) % 2])
         add('filter', n, 9, ['slow', None][len(cases) % 2], ['--path-rename', 'd1/:moved/', '--max-blob-size', '5'])
@@ -1390,19 +1453,39 @@ def sweep_case(case):
     root = tempfile.mkdtemp(prefix='frrs-sweep-')
     res = dict(id=case['id'], failures=[], dist={})
     def count(k, v=1): res['dist'][k] = res['dist'].get(k, 0) + v
-    limit = 900
+    limit = case.get('limit', 300)
     try:
         repo = os.path.join(root, 'repo')
         subprocess.run(['git', 'init', '-q', repo], check=True, env=GIT_ENV, stdout=subprocess.DEVNULL)
-        git(repo, 'fast-import', '--quiet', input=sized_stream(case['n'], case['blobsize'], case.get('fpc', 1), 3))
+        if case['mode'] == 'detect-many':
+            import random
+            rnd = random.Random(case['id'])
+            keys = '\n'.join('AKIA' + ''.join(rnd.choice('ABCDEFGHIJKLMNOPQRSTUVWXYZ234567') for _ in range(16)) for _ in range(case['n']))
+            stream = [b'feature done\n', b'blob\nmark :1\ndata %d\n%s\n' % (len(keys) + 1, keys.encode() + b'\n')]
+            nfiles = case['blobsize'] // 20000
+            for i in range(nfiles):
+                body = (('filler line %06d of file %04d\n' % (0, i)) * 700).encode()
+                stream.append(b'blob\nmark :%d\ndata %d\n%s\n' % (i + 2, len(body), body))
+            stream.append(b'commit refs/heads/b0\nmark :%d\ncommitter T <t@e> 1000 +0000\ndata 2\nc\nM 100644 :1 a_secrets.txt\n' % (nfiles + 2))
+            for i in range(nfiles):
+                stream.append(b'M 100644 :%d text/f%04d.txt\n' % (i + 2, i))
+            stream.append(b'\ndone\n')
+            git(repo, 'fast-import', '--quiet', input=b''.join(stream))
+        else:
+            n_commits = 60 if case['mode'] == 'filter-noisy' else case['n']
+            git(repo, 'fast-import', '--quiet', input=sized_stream(n_commits, case['blobsize'], case.get('fpc', 1), 3))
         git(repo, 'symbolic-ref', 'HEAD', 'refs/heads/b0')
         git(repo, 'reset', '-q', '--hard')
+        if case['mode'] == 'filter-noisy':
+            tree = git(repo, 'rev-parse', 'b0^{tree}').decode().strip()
+            git(repo, 'update-ref', '--stdin', input=''.join(f'create refs/tags/tree-tag-{i:05d} {tree}\n' for i in range(case['n'])).encode())
         nobj = len(git(repo, 'cat-file', '--batch-all-objects', '--batch-check').splitlines())
         env = dict(GIT_ENV)
         if case['shim']:
             env = perturbed_env(root, case['id'], case['shim'])
             env['FRRS_SHIM_IN'], env['FRRS_SHIM_OUT'] = ('4096', '4096') if nobj * max(case['blobsize'], 60) > 3_000_000 else ('113', '251')
-        args = {'detect': ['--detect-secrets'], 'analyze': ['--analyze', '--analyze-json'], 'filter': ['--force'] + case['args']}[case['mode']]
+        args = {'detect': ['--detect-secrets'], 'detect-many': ['--detect-secrets'], 'analyze': ['--analyze', '--analyze-json'],
+                'filter': ['--force'] + case['args'], 'filter-noisy': ['--force'] + case['args']}[case['mode']]
         t0 = time.time()
         try:
             p = subprocess.run([FR] + args, cwd=repo, stdout=subprocess.PIPE, stderr=subprocess.PIPE, env=env, timeout=limit)
@@ -1493,6 +1576,112 @@ def fault_case(case):
                 res['failures'].append(('C10', f'{what}: refs or HEAD changed: {diff}'))
         else:
             count('fault-survived-by-the-child')
+        return res
+    except Exception as e:
+        import traceback
+        res['error'] = f'{type(e).__name__}: {e} {traceback.format_exc()[-300:]}'
+        return res
+    finally:
+        shutil.rmtree(root, ignore_errors=True)
+
+
+# ------------------------------------------------------------------------------------------------
+# C14: scenario families around HEAD (tip-only pruning, partial runs, chained renames, a fully pruned HEAD branch, detached HEAD)
+
+def branch_refs_of_stream(stream):
+    """branch refs named by `commit`/`reset` lines of a stream (payloads skipped by their byte count), sorted"""
+    out, i, n = set(), 0, len(stream)
+    while i < n:
+        j = stream.find(b'\n', i)
+        j = n if j < 0 else j + 1
+        line = stream[i:j]
+        i = j
+        if line.startswith(b'data '):
+            try:
+                i += int(line[5:].strip())
+            except ValueError:
+                pass
+            continue
+        for kw in (b'commit ', b'reset '):
+            if line.startswith(kw + b'refs/heads/'):
+                out.add(line[len(kw):].rstrip(b'\n'))
+    return sorted(out)
+
+
+def head_case(case):
+    root = tempfile.mkdtemp(prefix='frrs-head-')
+    res = dict(id=case['id'], failures=[], dist={})
+    def count(k): res['dist'][k] = res['dist'].get(k, 0) + 1
+    def fail(msg): res['failures'].append(('C14', msg))
+    try:
+        k = case['id']
+        repo, marks = build_repo(case, root)
+        aux = write_aux(case, root, marks)
+        sh = lambda s: subprocess.run(['bash', '-c', 'set -e\n' + s], cwd=repo, check=True, env=GIT_ENV, stdout=subprocess.DEVNULL, stderr=subprocess.DEVNULL)
+        if not [r for r in refs(repo) if r.startswith('refs/heads/')]:
+            sh('git checkout -q --orphan main; echo seed > seed.txt; git add seed.txt; git commit -q -m seed')
+        if not head_of(repo) or head_of(repo) not in refs(repo):
+            first = sorted(r for r in refs(repo) if r.startswith('refs/heads/'))[0]
+            sh(f'git checkout -q -f {first[len("refs/heads/"):]!r}')
+        sh('git reset -q --hard; git clean -fdq')
+        scen = ['tip-prune', 'partial-with-matching-rename', 'chained-rename', 'head-branch-fully-pruned', 'tip-prune-and-rename', 'generated-options-detached', 'generated-options'][k % 7]
+        count('scenario-' + scen)
+        br = None
+        if scen in ('tip-prune', 'tip-prune-and-rename'):
+            n_tip = 1 + k % 3
+            for i in range(n_tip):
+                sh(f'echo secret{i} >> zz-only-tip.env; git add zz-only-tip.env; git commit -q -m "tip {i}"')
+            cli = ['--path', 'zz-only-tip.env', '--invert-paths']
+            if scen == 'tip-prune-and-rename':
+                name = head_of(repo)[len('refs/heads/'):]
+                br = (name[:1], 'R-')
+                cli += ['--branch-rename', f'{br[0]}:{br[1]}']
+        elif scen == 'partial-with-matching-rename':
+            sh('git branch -f feat/b HEAD; git checkout -q -b feat/a; echo only-a > only-on-a.txt; git add only-on-a.txt; git commit -q -m a; '
+               'git checkout -q feat/b; echo only-b > only-on-b.txt; git add only-on-b.txt; git commit -q -m b; git checkout -q feat/a')
+            br = ('feat/', 'topic/')
+            cli = ['--refs', 'refs/heads/feat/b', '--branch-rename', 'feat/:topic/']
+        elif scen == 'chained-rename':
+            sh('git branch -f x/x/foo HEAD; git checkout -q -b x/foo; echo f > foo-file; git add foo-file; git commit -q -m foo')
+            br = ('x/', '')
+            cli = ['--branch-rename', 'x/:']
+        elif scen == 'head-branch-fully-pruned':
+            sh('git checkout -q --orphan only-drop; git rm -rfq . 2>/dev/null || true; echo d > drop-me.txt; git add drop-me.txt; git commit -q -m d1; echo e >> drop-me.txt; git commit -q -am d2')
+            cli = ['--path', 'drop-me.txt', '--invert-paths']
+        else:
+            cli = [a.replace('@AUX@', aux) for a in case['cli']]
+            if '--branch-rename' in cli:
+                o, nw = cli[cli.index('--branch-rename') + 1].split(':', 1)
+                br = (o, nw)
+            if scen == 'generated-options-detached':
+                sh('git checkout -q --detach')
+        head_before = head_of(repo)
+        rc, out, err, _ = run_tool(repo, ['--force'] + cli)
+        if rc != 0:
+            count('tool-exit-nonzero')
+            return res
+        count('tool-ok')
+        after = refs(repo)
+        gd = os.path.join(repo, '.git', 'filter-repo', 'fast-export.filtered')
+        upd = branch_refs_of_stream(open(gd, 'rb').read()) if os.path.exists(gd) else []
+        enc_l = lambda xs: ','.join(enhex(x if isinstance(x, bytes) else x.encode()) for x in xs) or '-'
+        pred = model().ask('headtarget %s %s %s %s' % (enhex(head_before.encode()) if head_before else 'none', enc_l(sorted(after)),
+                                                       f'{enhex(br[0].encode())}:{enhex(br[1].encode())}' if br else 'none', enc_l(upd)))
+        want = head_before if pred == 'none' else unhex(pred).decode('utf-8', 'replace')
+        got = head_of(repo)
+        if want != got:
+            fail(f'[{scen}] HEAD was {head_before}; the model of the HEAD block says it ends on {want}, the tool left it on {got} (options {cli})')
+        if got is not None:
+            count('head-attached-after-run')
+            if got not in after:
+                fail(f'[{scen}] HEAD names {got}, which does not exist after the run (options {cli})')
+            else:
+                st = git(repo, 'status', '--porcelain', check=False).decode('utf-8', 'replace')
+                if st.strip():
+                    fail(f'[{scen}] git status is not clean after the run: {st.strip()[:200]!r} (options {cli})')
+                di = git(repo, 'diff-index', '--cached', 'HEAD', check=False)
+                if di.strip():
+                    fail(f'[{scen}] the index differs from the tree of HEAD after the run (options {cli})')
         return res
     except Exception as e:
         import traceback
